@@ -32,30 +32,42 @@ def hexn(n, start=0xa0):
 def scenarios(tier):
     out = []
     s6 = ('send', hexn(6))
+    s5 = ('send', hexn(5))
     s1 = ('send', hexn(1, 0xb0))
+    s1b = ('send', hexn(1, 0xb8))
     s3 = ('send', hexn(3, 0xc0))
+    thorough = tier == 'thorough'
+
+    def shape(length, seg, dev):
+        return _scen('shape-len%d-seg%d-d%d' % (length, seg, dev), {'A': [('send', hexn(length))], 'B': []},
+                     dev_bound=dev, seg_mru={'A': seg, 'B': seg}, tx_init={'A': seg, 'B': seg}, weight=(length + 1) * (1 + 2 * dev))
     # shape sweep: every length class against two segment sizes, user queues at any time
-    for seg in (1, 4):
-        for length in (0, 1, 3, 4, 5, 8, 9):
-            if seg == 1 and length > 4:
-                continue
-            out.append(_scen('shape-len%d-seg%d' % (length, seg), {'A': [('send', hexn(length))], 'B': []},
-                             dev_bound=1, seg_mru={'A': seg, 'B': seg}, tx_init={'A': seg, 'B': seg}, weight=length + 1))
-    # two bundles one way (pipelining, ids, order), d<=1
-    out.append(_scen('W1-A6+A1', {'A': [s6, s1], 'B': []}, dev_bound=1, weight=30))
+    for length in (0, 1, 4, 5, 8):
+        out.append(shape(length, 4, 1))
+    for length in (0, 1, 2):
+        out.append(shape(length, 1, 1))
+    out.append(shape(3, 1, 0))
+    out.append(shape(9, 4, 0))
+    # two bundles one way (pipelining, ids, order)
+    out.append(_scen('W1-A5+A1', {'A': [s5, s1], 'B': []}, dev_bound=0, weight=12))
+    out.append(_scen('W1-A1+A1-d1', {'A': [s1, s1b], 'B': []}, dev_bound=1, weight=20))
     # both directions at once
-    out.append(_scen('W2-A6|B3', {'A': [s6], 'B': [s3]}, dev_bound=0, weight=40))
+    out.append(_scen('W2-A5|B1', {'A': [s5], 'B': [s1]}, dev_bound=0, weight=40))
     # initial size above the peer MRU must be clamped
-    out.append(_scen('clamp-A6', {'A': [s6], 'B': []}, dev_bound=1, tx_init={'A': 64, 'B': 64}, weight=8))
+    out.append(_scen('clamp-A6-d1', {'A': [s6], 'B': []}, dev_bound=1, tx_init={'A': 64, 'B': 64}, weight=10))
     # small stream chunks: every message straddles several writes without any deviation
-    out.append(_scen('chunk5-A6', {'A': [s6], 'B': []}, dev_bound=0, chunk=5, weight=20))
-    out.append(_scen('chunk5-A3|B1', {'A': [s3], 'B': [s1]}, dev_bound=0, chunk=5, weight=30))
-    if tier == 'thorough':
-        out.append(_scen('W1-A6+A1-d2', {'A': [s6, s1], 'B': []}, dev_bound=2, weight=90))
-        out.append(_scen('W2-A6|B3-d1', {'A': [s6], 'B': [s3]}, dev_bound=1, weight=100))
-        out.append(_scen('W3-A6+A1|B3', {'A': [s6, s1], 'B': [s3]}, dev_bound=0, weight=100))
-        out.append(_scen('chunk5-A6+A1', {'A': [s6, s1], 'B': []}, dev_bound=1, chunk=5, weight=80))
-        out.append(_scen('seg1-A3|B3', {'A': [s3], 'B': [s3]}, dev_bound=0,
+    out.append(_scen('chunk5-A3', {'A': [s3], 'B': []}, dev_bound=0, chunk=5, weight=40))
+    if thorough:
+        out.append(shape(3, 1, 1))
+        out.append(shape(4, 1, 1))
+        out.append(shape(9, 4, 1))
+        out.append(shape(5, 4, 2))
+        out.append(_scen('W1-A6+A1-d1', {'A': [s6, s1], 'B': []}, dev_bound=1, weight=60))
+        out.append(_scen('W2-A6|B3-d0', {'A': [s6], 'B': [s3]}, dev_bound=0, weight=40))
+        out.append(_scen('W2-A5|B1-d1', {'A': [s5], 'B': [s1]}, dev_bound=1, weight=100))
+        out.append(_scen('W3-A5+A1|B1', {'A': [s5, s1], 'B': [s1b]}, dev_bound=0, weight=100))
+        out.append(_scen('chunk5-A3|B1', {'A': [s3], 'B': [s1]}, dev_bound=0, chunk=5, weight=100))
+        out.append(_scen('seg1-A2|B2', {'A': [('send', hexn(2))], 'B': [('send', hexn(2, 0xd0))]}, dev_bound=0,
                          seg_mru={'A': 1, 'B': 1}, tx_init={'A': 1, 'B': 1}, weight=80))
     return out
 
